@@ -379,7 +379,7 @@ def _timediff_image(ck, tsd_arr, tsd_img):
 
 # ============================================================ labs/mask.py
 HDR_MASK = ("From Coq Require Import List ZArith QArith.\nFrom NV.Lib Require Import Harness.\n"
-            "From NV.C19 Require Import MaskModel.\n")
+            "From NV.C19 Require Import MaskModel MaskSpec.\n")
 
 
 def _components(mask):
@@ -606,7 +606,10 @@ def masks(ck):
                                                            cql([frac(x) for x in out.ravel()])))
         cmeta.append(("threshold_connect_components", rep2))
     # ---------------- series_from_mask extraction order
-    nser = _series_from_mask(ck, nm, rng)
+    nser, sterms = _series_from_mask(ck, nm, rng)
+    for t, rep in sterms:
+        cterms.append(t)
+        cmeta.append(("series_from_mask", rep))
     # ---------------- correspondence with the Coq model
     n_cmp = 0
     if ck.build is not None and ck.build.ok:
@@ -629,6 +632,7 @@ def masks(ck):
 def _series_from_mask(ck, nm, rng):
     import nibabel as nib
     n = 0
+    sterms = []
     d = ck.scratch / "series"
     d.mkdir(exist_ok=True)
     for k, shape in enumerate([(2, 3, 2), (3, 2, 4)]):
@@ -648,11 +652,17 @@ def _series_from_mask(ck, nm, rng):
             n += 1
             ck.count(("series", k, kind), bucket="mask:series")
             got, _hdr = nm.series_from_mask(arg, mk)
+            rep = {"shape": list(shape), "T": T, "mask": mk.astype(int).ravel().tolist(), "data": data.ravel().tolist(), "input": kind}
             if got.shape != want.shape or not np.array_equal(got, want):
                 ck.fail("series_from_mask/order/%s" % kind, "series_from_mask(%s) is not data[mask] in row-major voxel order with shape (voxel, time): "
-                        "shape %s vs %s" % (kind, got.shape, want.shape),
-                        {"shape": list(shape), "T": T, "mask": mk.astype(int).ravel().tolist(), "data": data.ravel().tolist()})
-    return n
+                        "shape %s vs %s" % (kind, got.shape, want.shape), rep)
+            if got.ndim == 2:
+                # model: series_sel (flat mask) (per-voxel time courses in row-major voxel order)
+                sterms.append(("list_eqb qlist_eqb (series_sel %s %s) %s" % (
+                    clist([cbool(bool(b)) for b in mk.ravel()]),
+                    clist([cql([frac(x) for x in row]) for row in data.reshape(-1, T)]),
+                    clist([cql([frac(x) for x in row]) for row in np.asarray(got, dtype=float)])), rep))
+    return n, sterms
 
 
 # ============================================================ generators.py / pca.py (clauses 3, 4)
@@ -787,8 +797,8 @@ def generators(ck):
                         good = good and np.array_equal(z, w) and np.array_equal(b, np.take(data, j, axis=a))
                 if not good:
                     sig = "slice_generator/int-axis/" + ("negative" if a < 0 else "nonnegative")
-                    ck.fail(sig, "slice_generator(np.arange(%d).reshape%s, axis=%d) %s instead of slicing axis %d: "
-                            "(slice(None),)*axis is the empty tuple for a negative axis"
+                    ck.fail(sig, "slice_generator(np.arange(%d).reshape%s, axis=%d) %s instead of slicing axis %d "
+                            "(expected index tuples (slice(None),)*k + (j,) with k the normalised axis)"
                             % (size, shape, a, "yields indices %s%s" % (got, " then raises IndexError" if err else ""), a % nd),
                             rp)
             elif kind in ("single", "pair", "three+"):
@@ -812,8 +822,8 @@ def generators(ck):
                     else:
                         sig = "slice_generator/documented-order/%d-axes" % len(axis)
                     nbad = next((k for k in range(len(want)) if k >= len(got) or got[k] != want[k]), len(want))
-                    ck.fail(sig, "slice_generator(np.arange(%d).reshape%s, axis=%r) %s at step n=%d (expected index %s): "
-                            "`x = int(n / div %% mod)` uses the cumulative product as modulus"
+                    ck.fail(sig, "slice_generator(np.arange(%d).reshape%s, axis=%r) %s at step n=%d (expected index %s = "
+                            "documented mixed-radix digits, first axis fastest)"
                             % (size, shape, axis, "raises IndexError" if err and nbad >= len(got) else
                                "yields index %s" % (got[nbad] if nbad < len(got) else None), nbad,
                                want[nbad] if nbad < len(want) else None), rp)
